@@ -137,6 +137,12 @@ SigBytes(s) == FromHex(OnlyHex(s))
 (*            added signature ECDSA-verifies under the signing key for     *)
 (*            Keccak256(ver_of)), ver_of (the text the verifier hashed:    *)
 (*            the message for the version the file names afterwards)       *)
+(*            for via = "eth": paths = the derivation paths of the requests  *)
+(*            sent to the Ethereum app, want_path = the path the operator  *)
+(*            selected (-p / --path, or the documented default), and the   *)
+(*            signing key is the app's key for want_path                   *)
+(*  pubkey    signapp eth -b: ok, saved (file) / printed (stdout) key,      *)
+(*            want = the app's key for want_path, paths                     *)
 (*  roundtrip save; load; save: ok, after = [hash, iter, sigs], f1, f2     *)
 (*  apdu      one device exchange: apdu, sw, resp                          *)
 (*  begin     a new authorize operation starts (exchange counters reset)   *)
@@ -178,7 +184,10 @@ ArgStatus(e, L) == IF e.args.given = "f" THEN "none"
                    ELSE IterStatus(e.args.iter)
 \* the signature added verifies, under the signing key, for Keccak256(AuthMsg(h, n)); `ver_of` is the
 \* text the independent verifier hashed (it must be the spec's, else the oracle is broken)
+PathsOK(e) == \A i \in 1..Len(e.paths) : e.paths[i] = e.want_path
 SignedFor(e, h, n) == IF SigStatus(e.sig) = "bad" THEN "SignatureWellFormed"
+                      \* signapp eth: every request to the Ethereum app names the selected path
+                      ELSE IF ~PathsOK(e) THEN "SelectedPathUsed"
                       ELSE IF e.ver_of # AuthMsg(h, n) THEN "OracleText"
                       ELSE IF e.verifies # "t" THEN "SignatureVerifies"
                       ELSE ""
@@ -288,6 +297,12 @@ Judge(o, e, L) ==
         ELSE IF o.st = "built" /\ o.sent = 0 THEN "SigVerFirst"          \* nothing was sent at all
         ELSE IF o.st = "built" /\ ~o.done /\ o.sigver = "ok" /\ ~o.err
                 /\ o.sent # 1 + Len(o.sigs) THEN "AllSentBeforeFailing"
+        ELSE ""
+    ELSE IF e.k = "pubkey" THEN
+        \* signapp eth -b: the key printed and saved is the Ethereum app's key for the selected path
+        IF e.ok # "t" THEN "PublicKeyOfSelectedPath"
+        ELSE IF ~PathsOK(e) THEN "SelectedPathUsed"
+        ELSE IF e.saved # e.want \/ e.printed # e.want THEN "PublicKeyOfSelectedPath"
         ELSE ""
     ELSE IF e.k = "begin" THEN ""
     ELSE IF e.k = "content" THEN
